@@ -527,6 +527,18 @@ func (e *Engine) applyStore(c *StoreCall, fault string, serial int) {
 				c.cutAt = arg
 				c.fullLen = len(r.data)
 			}
+		case "cutend":
+			// torn record that lost its last arg bytes
+			if arg > 0 && len(data) > 0 {
+				n := len(data) - arg
+				if n < 0 {
+					n = 0
+				}
+				c.cutAt = n
+				c.fullLen = len(r.data)
+				data = data[:n]
+				e.hist.FaultFired["store:cut-effective"]++
+			}
 		case "zerotail":
 			// torn write of the other kind: the record has its full length but the last
 			// arg bytes never reached the medium and read back as zeros
